@@ -32,6 +32,9 @@ type Backing struct {
 	revoke      func(id string, created int64) error
 	Done        func()
 	Unsupported func() []string
+	// raw handles on the fake databases (nil when not applicable)
+	SQL    *fakes.SQLDB
+	Dynamo *fakes.Dynamo
 }
 
 func (b *Backing) Metastore() appencryption.Metastore       { return b.MS }
@@ -135,7 +138,7 @@ func New(name string) *Backing {
 		case "oracle":
 			opts = append(opts, persistence.WithSQLMetastoreDBType(persistence.Oracle))
 		}
-		return &Backing{Name: name, MS: persistence.NewSQLMetastore(db, opts...), Done: func() { db.Close(); fake.Forget() }, Unsupported: func() []string { return fake.Unsupported },
+		return &Backing{Name: name, SQL: fake, MS: persistence.NewSQLMetastore(db, opts...), Done: func() { db.Close(); fake.Forget() }, Unsupported: func() []string { return fake.Unsupported },
 			rows: func() (kit.RefSnapshot, error) {
 				snap := kit.RefSnapshot{}
 				for _, r := range fake.Rows() {
@@ -165,7 +168,7 @@ func New(name string) *Backing {
 	default:
 		const table, region = "EncryptionKey", "us-west-2"
 		d := fakes.NewDynamo(table, region)
-		b := &Backing{Name: name, Done: func() {}, Unsupported: func() []string { return d.Unsupported }}
+		b := &Backing{Name: name, Dynamo: d, Done: func() {}, Unsupported: func() []string { return d.Unsupported }}
 		if name == "dynamodb-v1" {
 			sess := session.Must(session.NewSession(&aws.Config{Region: aws.String(region)}))
 			b.MS = v1persistence.NewDynamoDBMetastore(sess, v1persistence.WithClient(fakes.DynamoV1{D: d}))
